@@ -186,7 +186,16 @@ def run_op(case, name, mesh=None, form=0):
     if base == "adj":
         if arg == "custom":
             cast = [float, np.float64, np.float32, float][form % 4]      # the weights are multiples of 1/4: exact in every type
-            w = {(int(e) if form % 2 == 0 else np.int64(e)): cast(x) for e, x in enumerate(case["custom_w"])}
+            items = [((int(e) if form % 2 == 0 else np.int64(e)), cast(x)) for e, x in enumerate(case["custom_w"])]
+            ne = len(mesh.edges)
+            order = (form // 12) % 4        # insertion order of the dict is free: the weight of edge e is weights[e]
+            if order == 1:
+                items = items[::-1]
+            elif order == 2:
+                items = sorted(items, key=lambda kv: (float(kv[1]), -int(kv[0])))
+            elif order == 3:
+                items = items[ne:] + items[:ne][::2] + items[:ne][1::2]      # keys of no edge first, then evens, then odds
+            w = dict(items)
             return entries(O.adjacency_matrix(mesh, w) if (form // 4) % 3 == 1 else O.adjacency_matrix(mesh, weights=w))
         if arg == "one" and (form // 4) % 3 == 2:
             return entries(O.adjacency_matrix(mesh))
